@@ -1256,6 +1256,123 @@ func getBindMethod
   ensures [C11] funcDef.TypeId == VMTypeNativeFunction ==> result != nil && isFresh(result.Value.(*NativeFunctionData)) && funcDef.Value.(*NativeFunctionData).Self == old(funcDef.Value.(*NativeFunctionData).Self)
   ensures [C11] funcDef.TypeId == VMTypeFunction ==> result != nil && isFresh(result.Value.(*FunctionData)) && funcDef.Value.(*FunctionData).Self == old(funcDef.Value.(*FunctionData).Self)
 
+// ---- native functions and methods: arity and receiver type come from the registration tables (C01) ----
+
+func funcCeil
+  props C01 C02
+  requires ctx != nil && len(params) == 1
+
+func funcRound
+  props C01 C02
+  requires ctx != nil && len(params) == 1
+
+func funcFloor
+  props C01 C02
+  requires ctx != nil && len(params) == 1
+
+func funcAbs
+  props C01 C02
+  requires ctx != nil && len(params) == 1
+
+func funcToBool
+  props C01 C02
+  requires ctx != nil && len(params) == 1
+
+func funcToInt
+  props C01 C02
+  requires ctx != nil && len(params) == 1
+
+func funcToFloat
+  props C01 C02
+  requires ctx != nil && len(params) == 1
+
+func funcToStr
+  props C01 C02
+  requires ctx != nil && len(params) == 1
+
+func funcRepr
+  props C01 C02
+  requires ctx != nil && len(params) == 1
+
+func funcTypeId
+  props C01 C02
+  requires ctx != nil && len(params) == 1
+
+func funcLoad
+  props C01 C02
+  requires ctx != nil && len(params) == 1
+
+func funcLoadRaw
+  props C01 C02
+  requires ctx != nil && len(params) == 1
+
+func funcDir
+  props C01 C02
+  requires ctx != nil && len(params) == 1
+
+func funcStore
+  props C01 C02
+  requires ctx != nil && len(params) == 2
+
+func funcArraySum
+  props C01 C02
+  requires ctx != nil && this != nil && this.TypeId == VMTypeArray && len(params) == 0
+
+func funcArrayLen
+  props C01 C02
+  requires ctx != nil && this != nil && this.TypeId == VMTypeArray && len(params) == 0
+
+func funcArrayShuttle
+  props C01 C02 C06
+  requires ctx != nil && this != nil && this.TypeId == VMTypeArray && len(params) == 0
+  loop 1
+    invariant i <= len(lst) - 1
+    decreases i
+
+func funcArrayRand
+  props C01 C02
+  requires ctx != nil && this != nil && this.TypeId == VMTypeArray && len(params) == 0
+
+func funcArrayPop
+  props C01 C02
+  requires ctx != nil && this != nil && this.TypeId == VMTypeArray && len(params) == 0
+
+func funcArrayShift
+  props C01 C02
+  requires ctx != nil && this != nil && this.TypeId == VMTypeArray && len(params) == 0
+
+func funcArrayKeepLow
+  props C01 C02
+  requires ctx != nil && this != nil && this.TypeId == VMTypeArray && len(params) == 1
+
+func funcArrayKeepHigh
+  props C01 C02
+  requires ctx != nil && this != nil && this.TypeId == VMTypeArray && len(params) == 1
+
+func funcArrayRandSize
+  props C01 C02
+  requires ctx != nil && this != nil && this.TypeId == VMTypeArray && len(params) == 1
+
+func funcArrayPush
+  props C01 C02
+  requires ctx != nil && this != nil && this.TypeId == VMTypeArray && len(params) == 1
+
+func funcDictKeys
+  props C01 C02
+  requires ctx != nil && this != nil && this.TypeId == VMTypeDict && len(params) == 0
+
+func funcDictValues
+  props C01 C02
+  requires ctx != nil && this != nil && this.TypeId == VMTypeDict && len(params) == 0
+
+func funcDictItems
+  props C01 C02
+  requires ctx != nil && this != nil && this.TypeId == VMTypeDict && len(params) == 0
+
+func funcDictLen
+  props C01 C02
+  requires ctx != nil && this != nil && this.TypeId == VMTypeDict && len(params) == 0
+
 // ---- extension points (C17) ----
 
 // StoreName: a store hook that passes the value through (returns nil, false) changes nothing: the value handed to the
@@ -1308,9 +1425,13 @@ func (*VMValue).FuncInvoke
   ensures result == nil ==> ctx.Error != nil
 
 func (*VMValue).FuncInvokeNative
-  props C01
-  noverify
+  props C01 C02
+  requires ctx != nil && v.TypeId == VMTypeNativeFunction
+  ghost at precall 1 cd.NativeFunc: ghostAssert(arg0 == ctx && len(arg2) == len(cd.Params))
   ensures result == nil ==> ctx.Error != nil
+  loop 1
+    invariant 0 <= i && i <= len(cd.Defaults) && cd != nil
+    decreases len(cd.Defaults) - i
 
 func (*Context).LoadName
   props C01
